@@ -106,6 +106,8 @@ def entry_points(rng):
     for k in range(4):
         case = c06.gen_pop_case(rng)
         case['n'] = 3
+        if case['chis'] is not None:
+            case['chis'] = [case['chis'][0]]          # one covariate row shared by the three samples
         if all(d['kind'] in ('P', 'H') for d in case['subs']):
             case['subs'][0].update(kind='G', n_het=None)      # some continuous randomness is needed for the comparisons
             S = [Sub(**d) for d in case['subs']]
